@@ -370,7 +370,7 @@ func (r *nodeConfig) setStringSliceEncap(x []string) {
 		// nothing to assign
 	case 1:
 		r.setStringSliceEncapOne(x)
-	default:
+	case 2:
 		r.setStringSliceEncapTwo(x)
 	}
 }
